@@ -203,7 +203,11 @@ class C15(Prop):
         "harness (everything except 3-D Cartesian grids with moved nodes); on non-planar "
         "hexahedra porepy's face centres/normals do not satisfy sum_f s x_f n_f^T = |K| I and "
         "only the matrix certificates (2), (3) are claimed there. Float rounding: certificates hold "
-        "to the relative tolerance 1e-9 and the quantitative theorems carry it. Scope: Dirichlet "
+        "to the relative tolerance 1e-9 and the quantitative theorems carry it; the matrix certificates "
+        "are additionally held to a PURELY RELATIVE 1e-9 (C15_relative_certificate, no absolute floor) "
+        "and the oracle measures errors relative to the terms of each row, so grids scaled down to "
+        "2^-24 and coupling coefficients down to 2^-20 are judged as strictly as unit-scale ones (the "
+        "unchanged code is exact to rounding over that whole range; no restriction was needed). Scope: Dirichlet "
         "displacement condition on every boundary face (Neumann / mixed mechanical boundaries are "
         "outside the property); constant coupling coefficient, scalar or symmetric tensor "
         "(SecondOrderTensor); homogeneous isotropic stiffness. There is no assembled system in this "
